@@ -35,7 +35,7 @@ func gen1(t *rapid.T) Case {
 	cfg := gen.Cfg{Depth: 3, Full: true, Inline: "imsx"}
 	var c Case
 	switch rapid.IntRange(0, 3).Draw(t, "source") {
-	case 0:
+	case 0, 1:
 		o, base := gen.FullOpts(t, true, true, true)
 		c.Spec = eng.Spec{Options: int32(o), CodeGen: rapid.IntRange(0, 2).Draw(t, "codegen") == 0, NoBitmap: rapid.IntRange(0, 3).Draw(t, "nobitmap") == 0}
 		root := gen.Accel(t, cfg)
